@@ -324,3 +324,18 @@ func init() {
 	addMutant(Mutant{Name: "c04-binary-leaf-shared", Property: "C04", File: "ygot/struct_validation_map.go",
 		Old: "\tnv := reflect.MakeSlice(srcField.Type(), srcField.Len(), srcField.Len())\n\treflect.Copy(nv, srcField)\n\tdstField.Set(nv)\n\treturn nil\n}\n\n// copySliceField", New: "\tdstField.Set(srcField)\n\treturn nil\n}\n\n// copySliceField", Expect: "copyBinaryField:Set"})
 }
+
+func init() {
+	// R-ENC-PAIR (C20)
+	addMutant(Mutant{Name: "c20-gnmi-encoding-unproven", Property: "C20", File: "ytypes/node.go",
+		Old: "\t\t\t\t\tcase isTypedValue:\n\t\t\t\t\t\tencoding = GNMIEncoding\n\t\t\t\t\t\tval = args.val\n\t\t\t\t\tdefault:\n\t\t\t\t\t\treturn nil, status.Errorf(codes.InvalidArgument, \"invalid input data received, type %T\", args.val)\n",
+		New: "\t\t\t\t\tdefault:\n\t\t\t\t\t\tencoding = GNMIEncoding\n\t\t\t\t\t\tval = args.val\n", Expect: "retrieveNodeContainer:call#1"})
+	addMutant(Mutant{Name: "c20-json-element-as-gnmi", Property: "C20", File: "ytypes/leaf_list.go",
+		Old: "\t\tfor _, leaf := range leafList {\n\t\t\tif err := unmarshalGeneric(&leafSchema, parent, leaf, enc, opts...); err != nil {", New: "\t\tfor _, leaf := range leafList {\n\t\t\tif err := unmarshalGeneric(&leafSchema, parent, leaf, GNMIEncoding, opts...); err != nil {", Expect: "unmarshalLeafList:call#2"})
+}
+
+func init() {
+	// R-SLICE-EMPTINESS (C14)
+	addMutant(Mutant{Name: "c14-zero-length-binary-pruned", Property: "C14", File: "ygot/struct_validation_map.go",
+		Old: "\t\t\tif fVal.Len() != 0 || (fType.Type.Name() == BinaryTypeName && !fVal.IsNil()) {", New: "\t\t\tif fVal.Len() != 0 {", Expect: "slice-emptiness"})
+}
